@@ -175,6 +175,17 @@ func c19(p *an.Prog, r *an.R, tier string) {
 									shared[u] = true
 									changed = true
 								}
+								// a struct holding the list: loads of its slice-typed fields
+								if fa, ok := r2.(*ssa.FieldAddr); ok {
+									for _, r3 := range *fa.Referrers() {
+										if u, ok := r3.(*ssa.UnOp); ok && !shared[u] {
+											if _, isSlice := u.Type().Underlying().(*types.Slice); isSlice {
+												shared[u] = true
+												changed = true
+											}
+										}
+									}
+								}
 							}
 						}
 					}
